@@ -195,7 +195,7 @@ CallUpd0 ==
   /\ pc = "Upd0"
   /\ calls' = [calls EXCEPT !.upd = @ + 1]
   /\ gen' = IF cfg.upd = "rewrite" THEN gen + 1 ELSE gen
-  /\ pc' = "Mem0"
+  /\ pc' = IF mem # <<>> THEN "Filter0" ELSE "Mem0"   \* restart: the restored sequence is filtered (fix 645f7b7)
   /\ UNCHANGED <<cfg, chain, nit, nfev, njev, nit0, n0, f0r, x, fx, fAt, gAt, pg, memo, mem, matsOf,
                  ls, task, success, lastCb, snap, npts, uphill, fault, out>>
 SkipUpd0 ==
@@ -323,9 +323,10 @@ AccGSkip ==
   /\ UNCHANGED <<cfg, chain, nit, nfev, njev, nit0, n0, f0r, x, fx, fAt, gAt, pg, memo, mem, matsOf, ls,
                  task, success, calls, lastCb, snap, npts, gen, uphill, fault, out>>
 
-(* main.py:577-598: stop tests (and on-the-fly redefinition) *)
+(* main.py:577-598: on-the-fly redefinition, curvature filter, stop tests (the filter runs BEFORE the tests since   *)
+(* fix ad0fb3f: a run stopped by ftol / target in this iteration returns the filtered sequence)                   *)
 CallUpd ==
-  /\ pc = "Upd" /\ pc' = "Tests"
+  /\ pc = "Upd" /\ pc' = "Filter"
   /\ calls' = [calls EXCEPT !.upd = @ + 1]
   /\ gen' = IF cfg.upd = "rewrite" THEN gen + 1 ELSE gen
   /\ UNCHANGED <<cfg, chain, nit, nfev, njev, nit0, n0, f0r, x, fx, fAt, gAt, pg, memo, mem, matsOf,
@@ -342,14 +343,20 @@ StopFtol ==
                  ls, calls, lastCb, snap, npts, gen, uphill, fault, out>>
 NoStop ==
   /\ pc = "Tests"
-  /\ pc' = IF cfg.upd = "none" THEN "MemUpd" ELSE "Filter"
+  /\ pc' = "MemUpd"
   /\ UNCHANGED <<cfg, chain, nit, nfev, njev, nit0, n0, f0r, x, fx, fAt, gAt, pg, memo, mem, matsOf,
                  ls, task, success, calls, lastCb, snap, npts, gen, uphill, fault, out>>
 (* bfgsmats.py:388-429 *)
 Filter(ids) ==
   /\ pc = "Filter"
   /\ mem' = ids
-  /\ pc' = "MemUpd"
+  /\ pc' = "Tests"
+  /\ UNCHANGED <<cfg, chain, nit, nfev, njev, nit0, n0, f0r, x, fx, fAt, gAt, pg, memo, matsOf,
+                 ls, task, success, calls, lastCb, snap, npts, gen, uphill, fault, out>>
+Filter0(ids) ==     \* main.py:456-461, restart only
+  /\ pc = "Filter0"
+  /\ mem' = ids
+  /\ pc' = "Mem0"
   /\ UNCHANGED <<cfg, chain, nit, nfev, njev, nit0, n0, f0r, x, fx, fAt, gAt, pg, memo, matsOf,
                  ls, task, success, calls, lastCb, snap, npts, gen, uphill, fault, out>>
 
